@@ -317,6 +317,14 @@ class Oracle:
         an = act_name(rl)
         if cls not in SEQUENCE and an not in (None, "linear", "softmax"):
           roles.append(("activation", tl.activation, L[-1]))
+        if cls in ("LSTM", "GRU", "SimpleRNN") and an not in (
+            None, "linear", "softmax"):
+          roles.append(("activation", tl.cell.activation, L[-1]))
+        if cls in ("LSTM", "GRU"):
+          # limit list is [kernel, bias, recurrent, activation]: the recurrent
+          # ACTIVATION is an activation and obeys the last entry
+          roles.append(("recurrent_activation", tl.cell.recurrent_activation,
+                        L[-1]))
         for role, q, l_ in roles:
           ok = allowed(role, l_)
           got = None if q is None else str(q)
@@ -412,6 +420,23 @@ class Oracle:
                           ts2, d2, ts, d, tag))
         return False
     self.deltas.append((ts, d))
+    # the score compiled into THIS trial must carry THIS trial's bonus:
+    # adjusted score = metric * (1 + delta); with a perfect prediction the
+    # metric is 1
+    tf = tf_setup()
+    k = int(qm.output_shape[-1])
+    n = int(np.prod(qm.output_shape[1:-1])) if len(qm.output_shape) > 2 else 1
+    if k >= 2 and n == 1:
+      yt = tf.constant(np.eye(k, dtype=np.float32))
+      sc = float(np.mean(np.asarray(hm.score(yt, yt))))
+      ctx.checked()
+      ctx.probe("compiled_score_checked")
+      if abs(sc - (1.0 + d)) > 1e-5 * max(1.0, abs(1.0 + d)):
+        ctx.violation("forgiving|compiled-score-carries-stale-bonus",
+                      "score of a perfect prediction is %r, metric*(1+delta) "
+                      "would be %r (trial size %r, reference %r)%s" % (
+                          sc, 1.0 + d, ts, rs, tag))
+        return False
     # per-layer size entries
     tsd = target.trial_size_dict
     tsp = self.w["target"]
@@ -980,6 +1005,8 @@ def directed():
                            "Activation": [4]}, {}),
       ("cnn-partial", "img", cnn, {"Conv2D": [2, 4, 4]}, {}),
       ("lstm", "seq", seq, {"LSTM": [4, 4, 4, 4], "Dense": [4, 4, 4]}, {}),
+      ("lstm-low-activation-limit", "seq", seq, {"LSTM": [8, 8, 8, 2],
+                                                 "Dense": [4, 4, 4]}, {}),
       ("separable", "img", sep, {"SeparableConv2D": [4, 4, 4],
                                  "DepthwiseConv2D": [4, 4, 4]}, {}),
   ]
